@@ -77,9 +77,14 @@ func (v Val) ToVariant() *variants.Variant {
 			a[i] = v.A[i].ToVariant()
 		}
 		return variants.VariantFromArray(a)
+	case "Object":
+		return variants.VariantFromObject(HostObject{K: int(v.I)})
 	}
 	return variants.EmptyVariant()
 }
+
+// HostObject is the caller's own (comparable) type held by Object variants of variable sets.
+type HostObject struct{ K int }
 
 var typeNames = map[variants.VariantType]string{
 	variants.Null: "Null", variants.Integer: "Integer", variants.Long: "Long", variants.Float: "Float",
